@@ -78,7 +78,7 @@ impl Prop for C13 {
          5-byte varints, counts above the payload, key_<huge> suffixes), three 65507-byte datagrams and silence; thorough: two at \
          a time (second from the boundary subset). Oracle: a counting global allocator armed around the call: peak live <= 64 \
          MiB, largest single request <= 16 MiB, (a request above 1 GiB is refused and the process death is attributed to the \
-         execution), and sends <= (retries+1) x (datagrams delivered + 8). Eco: Content-Length extremes over loopback HTTP. Large well-formed replies (2000 / 8000 / 20000 tiny Valve rules with 255 players in dozens of fragments, Unreal 2 lists in 6 datagrams, 3000 GameSpy 1 variables in 60 parts) under the same allowance"
+         execution), and sends <= (retries+1) x (datagrams delivered + 8). Eco: Content-Length extremes over loopback HTTP, and well-formed bodies (accurate Content-Length) in which every unsigned field at once, and each one alone, is 50000000. Large well-formed replies (2000 / 8000 / 20000 tiny Valve rules with 255 players in dozens of fragments, Unreal 2 lists in 6 datagrams, 3000 GameSpy 1 variables in 60 parts) under the same allowance"
             .into()
     }
     fn assumptions(&self) -> Vec<String> {
@@ -215,6 +215,21 @@ impl Prop for C13 {
                     (format!("Content-Length: {cl}"), out)
                 })
                 .collect();
+                // well-formed answers (accurate Content-Length) whose declared counts are far above what the body holds:
+                // every unsigned field at once, then each one alone
+                let mut variants = variants;
+                for which in std::iter::once(None).chain((0 .. 10).map(Some)) {
+                    let mut st = super::eco::gen_eco(&mut Chooser::new(&[]));
+                    for i in 0 .. 10 {
+                        if which.is_none() || which == Some(i) {
+                            st.u[i] = 50_000_000;
+                        }
+                    }
+                    let body = st.json().into_bytes();
+                    let mut out = format!("HTTP/1.1 200 OK\r\nContent-Type: application/json\r\nContent-Length: {}\r\nConnection: close\r\n\r\n", body.len()).into_bytes();
+                    out.extend_from_slice(&body);
+                    variants.push((format!("well-formed, declared counts 50000000 in {}", which.map_or("every unsigned field".to_string(), |i| format!("unsigned field {i}"))), out));
+                }
                 for (name, raw) in variants {
                     let ip = IpAddr::V4(Ipv4Addr::LOCALHOST);
                     let listener = TcpListener::bind((ip, 0)).expect("bind");
